@@ -109,7 +109,25 @@ def run(P, R):
     R.check(r2, ok, 'every process lost with an instance is handed to add_default_job, then jobs are triggered',
             'dispatch|lost', mn.loc(), '_WorkingState._master_next does not add a default job for every lost process')
 
+    # the working states that hand lost processes over (DISTRIBUTION, OPERATION) do it whatever else is going on: the
+    # call of the inherited _master_next comes first, on every path (not behind the "jobs in progress" return)
+    for cname in ('DistributionState', 'OperationState'):
+        ov = P.cls(cname).methods.get('_master_next')
+        if ov is None:
+            R.check(r2, True, '%s inherits _WorkingState._master_next' % cname, 'dispatch|lost|' + cname, mn.loc(), '')
+            continue
+        fmo = factmap(ov)
+        sup = [c for c in own_nodes(ov.node) if isinstance(c, ast.Call) and call_text(c) in (
+            'super()._master_next', '_WorkingState._master_next', 'super(%s, self)._master_next' % cname)]
+        ok = len(sup) >= 1 and must_call(ov.node, lambda k: any(k is c for c in sup)) and \
+            any(not fmo.at(c) for c in sup)
+        R.check(r2, ok, '%s._master_next hands the lost processes over on every path' % cname, 'dispatch|lost|' + cname,
+                ov.loc(), '%s._master_next does not call the inherited _master_next() (running failure handling of the '
+                'processes lost with an instance) unconditionally before it returns: a process lost while other jobs are '
+                'in progress is never repaired' % cname)
+
     shared.enum_classes(P, R, r2, only=('running_failure_strategy',))
+    shared.strategy_defaults(P, R, r2, 'running_failure_strategy')
 
     # ---------------------------------------------------------------- R3
     r3 = R.rule('R3', 'precedence matrix', 'with STOP_APPLICATION > RESTART_APPLICATION > RESTART_PROCESS > CONTINUE: each '
